@@ -14,8 +14,9 @@ import numpy as np
 import common as C
 import implutil as U
 
-STATIC = ["Model/Eject.vo"]
-IMPORTS = "From SSP Require Import Model.Eject."
+STATIC = ["Model/Eject.vo", "Model/Gate.vo"]
+EXTRA_PROPS = ["C07b"]
+IMPORTS = "From SSP Require Import Model.Eject Model.Gate."
 
 
 # ------------------------------------------------------------------ inputs
@@ -379,7 +380,8 @@ def run(chk):
         # BHs exist from the lifetime of the heaviest BH progenitor of the IFMR on (computed here from the lifetime law)
         gate = float(car.compute_tms(car.IFMR.BH_mi.upper))
         T = rng.choice([12000.0, 12000.0, 12000.0, 0.5 * gate, float(np.nextafter(gate, 0)), gate * 1.02, max(1.9, gate * 1.1), 2.1, 3.0, 5.0, 40.0])
-        case = dict(car=k % len(cars), M=M, N=N, ret_dyn=ret, rfac=rf, T=T, formed=bool(T > gate))
+        case = dict(car=k % len(cars), M=M, N=N, ret_dyn=ret, rfac=rf, T=T, formed=bool(T > gate),
+                    gate=[float(x) for x in car._tms_constants] + [float(car.IFMR.BH_mi.upper)], knife=bool(abs(T - gate) <= 1e-9 * gate))
         out, rec = run_post(car, M, N, ret, rf, T)
         pcases.append(case)
         pimpl.append(out)
@@ -403,7 +405,8 @@ def run(chk):
         for irow in np.argsort(Ts):            # rows are processed in time order; one kick record per formed row
             T = Ts[irow]
             gate = float(car.compute_tms(car.IFMR.BH_mi.upper))
-            case = dict(car=k % len(cars), M=M, N=N, ret_dyn=ret, rfac=rf, T=T, formed=bool(T > gate), schedule=Ts, row=int(irow))
+            case = dict(car=k % len(cars), M=M, N=N, ret_dyn=ret, rfac=rf, T=T, formed=bool(T > gate), schedule=Ts, row=int(irow),
+                        gate=[float(x) for x in car._tms_constants] + [float(car.IFMR.BH_mi.upper)], knife=bool(abs(T - gate) <= 1e-9 * gate))
             rec = next(formed_recs, {}) if (rf is not None and T > gate) else {}
             if outs[irow][0] == "Err" and T <= gate:
                 continue      # the construction raised at a later (formed) row: that row is judged, by the single-row rules
@@ -420,8 +423,10 @@ def run(chk):
         if c["rfac"] is not None and "after" in rec:
             kicked = "(Some (%s, %s))" % (C.pairs(*rec["after"]), C.fl(rec["kicked"]))
         msum = float(np.sum(np.array(c["M"])))
+        # the gate is the model's own (Model/Gate.v) unless the age is within 1e-9 of the progenitor's lifetime (exp/pow last bits)
+        gate_expr = ("true" if c["formed"] else "false") if c["knife"] else "(bh_gate (O:=F_ops) %s %s)" % (" ".join(map(C.fl, c["gate"])), C.fl(c["T"]))
         exprs.append("bh_post (O:=F_ops) %s %s %s %s %s %s" % (
-            "true" if c["formed"] else "false", C.pairs(c["M"], c["N"]), C.fl(msum), C.fl(c["ret_dyn"]),
+            gate_expr, C.pairs(c["M"], c["N"]), C.fl(msum), C.fl(c["ret_dyn"]),
             C.fl(cars[0].Nmin), kicked))
     model = [model_out(v) for v in C.eval_cases("C07p", IMPORTS, "", exprs)]
     dis = []
